@@ -1696,8 +1696,8 @@ func shrinkC17(raw json.RawMessage) []json.RawMessage {
 }
 
 func init() {
-	mk := func(id, level, rule string, probes []string, gen func(*simrt.Rand, string) json.RawMessage, exec func(json.RawMessage, bool) Outcome, shrink func(json.RawMessage) []json.RawMessage, q, t int) {
-		Register(&Check{
+	mk := func(id, level, rule string, probes []string, gen func(*simrt.Rand, string) json.RawMessage, exec func(json.RawMessage, bool) Outcome, shrink func(json.RawMessage) []json.RawMessage, q, t int) *Check {
+		c := &Check{
 			ID: id, Level: level, Rule: rule,
 			Assumptions:  []string{"Badger's transactional durability is trusted", "scheduling is owned at hook / RPC / yield-point granularity (GOMAXPROCS=1, seeded select order, seeded Gosched at rewrite-inserted yield points)"},
 			Real:         w3Real,
@@ -1713,8 +1713,26 @@ func init() {
 				return q, 5 * time.Minute
 			},
 			Gen: withSchedKnobs(gen), Exec: withSample(gen, exec), Shrink: shrink, DeathSig: w3DeathSig(id),
-		})
+		}
+		Register(c)
+		return c
 	}
+	// scoped race leg (racescope.go): the same scenarios under the race detector; only
+	// reports with both accesses inside the operation the property is about count
+	raced := func(c *Check, q, t int, scope ...string) {
+		c.RaceScope = scope
+		c.RaceSeeds = func(tier string) int {
+			if tier == "thorough" {
+				return t
+			}
+			return q
+		}
+	}
+	defer func() {
+		raced(registry["C09"], 300, 8000, "storage.(*Dataset).Search", "storage.(*Dataset).searchPartition")
+		raced(registry["C11"], 300, 8000, "storage.(*Dataset).Batch", "storage.(*Dataset).PartitionBatch", "storage.(*Dataset).partitionsBatchRequest", "storage.(*Dataset).handlePartitionBatchRequest")
+		raced(registry["C17"], 400, 10000, "storage.(*Dataset).SizeInfo")
+	}()
 	mk("C09", "exploration",
 		"case = cluster of 1..4 servers, dataset with 1..8 partitions and 1..3 replicas, 1..14 items, 2..6 dataset searches from any node with k from 1 to beyond the total, yield probability 0..40% at the fan-out/fan-in channel operations, seeded select order; optionally a crashed node (which may also be removed from the membership, before or after it goes down, so that no address is known for a listed replica), a blocked link or 30% response loss during the searches; the simulator records every SearchPartitions leg; non-trivial = at least one search executed; distinct = hash of the event log",
 		[]string{"dataset_searches", "searches_checked_against_union", "searches_with_several_legs", "legs_checked_against_direct_search", "searches_failed_loudly", "fault_partition", "fault_crash", "fault_drop_response", "node_removed_from_membership", "fault_stream_cut", "groups_of_overlapping_searches"},
